@@ -351,7 +351,7 @@ func c08Total(watch *harness.Client) int {
 
 func runC08(c *explore.Ctx) {
 	c.Level = "model_checking"
-	c.Rule = "E2 (virtual clock): every will setting (QoS, retain, delay absent/5s, properties, v3.1.1/v5, session expiry absent/3/10 or v3 clean/non-clean) x every way the connection ends (DISCONNECT 0x00, DISCONNECT 0x04, socket close, malformed packet, keep-alive timeout, take-over clean0/clean1, server-side Client.Close, TerminateSession, a DISCONNECT that is itself a protocol error) x every sequence of <=2 follow-ups (advance 4s/6s/21s, reconnect clean0/clean1) on a fresh in-process broker; a reference will machine (armed / due = end + min(delay, session expiry) / cancelled by re-attach / immediate when the session ends) predicts how many copies an independent Retain-As-Published subscriber has received after every step, and their content. E3: the end of the connection (close, DISCONNECT+close, pure take-over) races a CONNECT of the same client id (clean start 0/1), and the delayed-will timer races a re-attaching CONNECT, under every schedule with <=1 (quick) / <=2 (thorough) deviations: the number of copies is the schedule-independent expected one (timer race: at most one)."
+	c.Rule = "E2 (virtual clock): every will setting (QoS, retain, delay absent/5s, properties, v3.1.1/v5, session expiry absent/3/10 or v3 clean/non-clean) x every way the connection ends (DISCONNECT 0x00, DISCONNECT 0x04, socket close, malformed packet, keep-alive timeout, take-over clean0/clean1, server-side Client.Close, TerminateSession, a DISCONNECT that is itself a protocol error) x every sequence of <=2 follow-ups (advance 4s/6s/21s, reconnect clean0/clean1) on a fresh in-process broker; a reference will machine (armed / due = end + min(delay, session expiry) / cancelled by re-attach / immediate when the session ends) predicts how many copies an independent Retain-As-Published subscriber has received after every step, and their content. E3: the end of the connection (close, DISCONNECT+close, pure take-over) races a CONNECT of the same client id (clean start 0/1), and the delayed-will timer races a re-attaching CONNECT, under every schedule with <=1 (quick) / <=2 (thorough) deviations: the number of copies is the schedule-independent expected one (timer race: at most one); and a PUBLISH+DISCONNECT pair the broker has already read, the PUBLISH held in OnMsgArrived, races a take-over by the same client id: the queued DISCONNECT still suppresses the will in every schedule."
 	c.Trusted = []string{"vsched virtual clock and memconn deadlines", "refmqtt codec"}
 	c.Assumptions = []string{"a reconnect within 1s of the due instant is not judged", "Stop() as a way to end the connection is covered by C15, not here"}
 	if rc := replayCase(c); rc != nil {
